@@ -40,6 +40,14 @@ def gen_pair(rng):
     pos = rng.choice(["sl", "log+sl", "sl+log", "pr.1+sl+pr.2", "hdr+sl"])
     chain = pos.replace("sl", "sl.%d.%d" % (reqL, L))
     plain = pos.replace("+sl", "").replace("sl+", "").replace("sl", "") or "none"
+    if rng.random() < 0.25:
+        # the plugin listed twice with different limits (a strict edge limit, a laxer inner one, or the other way round):
+        # each entry is its own instance with its own limits, so the stricter one decides
+        lax = "sl.%d.%d" % (reqL * 40 + 7, L * 40 + 7)
+        if rng.random() < 0.5:
+            chain, plain = chain + "+hdr+" + lax, (plain + "+hdr" if plain != "none" else "hdr")
+        else:
+            chain, plain = lax + "+hdr+" + chain, ("hdr+" + plain if plain != "none" else "hdr")
     return ["# meta %d %d %d %d %s" % (reqL, L, total, reqlen, mode),
             rwgen.line(chain, method, "-", "-", reqlen, mode, ops), rwgen.line(plain, method, "-", "-", reqlen, mode, ops)]
 
